@@ -19,6 +19,12 @@ use std::time::{Duration, Instant};
 
 pub const VERIF_DIR: &str = "/verif";
 
+/// Where evidence, replay files and scratch files go. Always /verif for registered checks; MC_OUT_DIR redirects
+/// them for the author's own mutant experiments so that they cannot disturb committed evidence.
+pub fn out_dir() -> PathBuf {
+    std::env::var("MC_OUT_DIR").map(PathBuf::from).unwrap_or_else(|_| PathBuf::from(VERIF_DIR))
+}
+
 #[derive(Clone, Copy, Debug, PartialEq, Eq)]
 pub enum Tier {
     Quick,
@@ -362,7 +368,7 @@ pub fn die(msg: &str) -> ! {
 }
 
 fn scratch_dir(id: &str) -> PathBuf {
-    let p = Path::new(VERIF_DIR).join("target").join("run").join(id);
+    let p = out_dir().join("target").join("run").join(id);
     let _ = fs::create_dir_all(&p);
     p
 }
@@ -478,7 +484,7 @@ fn finish(check: &dyn Check, args: &Args, total: Ctx, wall: f64) -> i32 {
         println!("KNOWN-FINDING: property={id} {what} [key={key}; {n} case(s) in this run]");
     }
 
-    let replay_dir = Path::new(VERIF_DIR).join("replays").join(id);
+    let replay_dir = out_dir().join("replays").join(id);
     let _ = fs::remove_dir_all(&replay_dir); // replay files of earlier runs are stale
     let mut printed_keys: HashSet<String> = HashSet::new();
     let mut first_replays: Vec<String> = Vec::new();
@@ -561,7 +567,7 @@ fn write_evidence(check: &dyn Check, args: &Args, coverage: Map<String, Value>, 
         "wall_s": (wall * 1000.0).round() / 1000.0,
         "violations": violations,
     });
-    let dir = Path::new(VERIF_DIR).join("evidence");
+    let dir = out_dir().join("evidence");
     let _ = fs::create_dir_all(&dir);
     fs::write(dir.join(format!("{id}.json")), serde_json::to_string_pretty(&ev).unwrap()).expect("write evidence");
 }
@@ -712,7 +718,7 @@ fn attribute_crash(
         println!("MACHINERY-ERROR {id}: child failed ({why}) but no single chunk reproduces it in isolation");
         return 2;
     }
-    let replay_dir = Path::new(VERIF_DIR).join("replays").join(id);
+    let replay_dir = out_dir().join("replays").join(id);
     let _ = fs::create_dir_all(&replay_dir);
     let mut samples = Vec::new();
     for (c, kind, case) in &culprits {
